@@ -61,6 +61,9 @@ pub enum Act {
     Mark,
     Run(u8),
     SendSe(u8, u8),
+    /// `SystemCommand(entity)` queued / sent a system event where the entity is one of the plain entity slots.
+    RunEnt(EntRef),
+    SendSeEnt(EntRef, u8),
     Broadcast(u8),
     EntityEv(EntRef, u8),
     Insert(EntRef, u8, u32),
@@ -71,7 +74,17 @@ pub enum Act {
     RespawnEnt(u8),
     ResAccess(u8, How, u32),
     ResTrigger(u8),
-    Register { mode: Mode, once: bool, bundle: Vec<Trig>, flavour: Flavour, script: u8 },
+    /// form: bundle shape (`form % N_SHAPES`, 0 = `DynBundle`, otherwise real tuples) and registration API
+    /// (`form / N_SHAPES % 2`: 0 = `spawn_system_command` + `with`, 1 = `on` / `on_persistent` / `on_revokable`).
+    Register {
+        mode: Mode,
+        once: bool,
+        bundle: Vec<Trig>,
+        flavour: Flavour,
+        script: u8,
+        #[serde(default)]
+        form: u8,
+    },
     SpawnSys { flavour: Flavour, script: u8 },
     With { sys: u8, bundle: Vec<Trig> },
     Revoke(u8),
@@ -94,6 +107,8 @@ impl Act {
             Act::Mark => "Mark",
             Act::Run(_) => "Run",
             Act::SendSe(..) => "SendSe",
+            Act::RunEnt(_) => "RunEnt",
+            Act::SendSeEnt(..) => "SendSeEnt",
             Act::Broadcast(_) => "Broadcast",
             Act::EntityEv(..) => "EntityEv",
             Act::Insert(..) => "Insert",
@@ -231,6 +246,8 @@ pub struct Weights {
     pub ew: u32,
     pub poll: u32,
     pub gc: u32,
+    /// commands / system events addressed to plain entities
+    pub stray: u32,
 }
 
 impl Weights {
@@ -260,9 +277,10 @@ impl Weights {
             ew: 4,
             poll: 1,
             gc: 1,
+            stray: 1,
         }
     }
-    fn table(&self) -> [(u32, u8); 24] {
+    fn table(&self) -> [(u32, u8); 25] {
         [
             (self.mark, 0),
             (self.run, 1),
@@ -288,6 +306,7 @@ impl Weights {
             (self.ew, 21),
             (self.poll, 22),
             (self.gc, 23),
+            (self.stray, 24),
         ]
     }
 }
@@ -447,6 +466,7 @@ pub fn gen_act(r: &mut Rng, p: &Profile) -> Act {
             bundle: gen_bundle(r, p, 0),
             flavour: gen_flavour(r, p),
             script: x,
+            form: r.below(8) as u8,
         },
         14 => Act::Register {
             mode: Mode::Revokable,
@@ -454,6 +474,7 @@ pub fn gen_act(r: &mut Rng, p: &Profile) -> Act {
             bundle: gen_bundle(r, p, 0),
             flavour: gen_flavour(r, p),
             script: x,
+            form: r.below(8) as u8,
         },
         15 => Act::SpawnSys { flavour: gen_flavour(r, p), script: x },
         16 => Act::With { sys: x, bundle: gen_bundle(r, p, 1) },
@@ -471,7 +492,14 @@ pub fn gen_act(r: &mut Rng, p: &Profile) -> Act {
             _ => Act::EwRemove(t, gen_entref(r, p), r.below(4) as u8),
         },
         22 => Act::Poll,
-        _ => Act::Gc,
+        23 => Act::Gc,
+        _ => {
+            if r.chance(40) {
+                Act::RunEnt(gen_entref(r, p))
+            } else {
+                Act::SendSeEnt(gen_entref(r, p), t)
+            }
+        }
     }
 }
 
@@ -512,6 +540,7 @@ pub fn gen_program(seed: u64, p: &Profile) -> Program {
             bundle: gen_bundle(&mut r, p, 1),
             flavour: gen_flavour(&mut r, p),
             script: r.below(64) as u8,
+            form: r.below(8) as u8,
         });
     }
     if r.chance(50) {
